@@ -65,6 +65,13 @@ func (g *Gen) elemKey(elem types.Type) string {
 	return key
 }
 
+// fieldPtr: the address of field `name` of the struct object `ref` of type st, as a term.
+func (g *Gen) fieldPtr(st types.Type, name, ref string) string {
+	fn := g.declareFun(sym("fp."+typeKey(types.Unalias(st))+"."+name), []string{"Int"}, "Int")
+	g.axiomOnce("fp.pos."+fn, fmtf("(forall ((fp_r Int)) (! (=> (distinct fp_r 0) (> (%s fp_r) 0)) :pattern ((%s fp_r))))", fn, fn))
+	return app(fn, ref)
+}
+
 func (g *Gen) scalarKey(t types.Type) string {
 	key := "C:" + typeKey(types.Unalias(t))
 	g.keyDecl(key, "(Array Int "+g.sortOf(t)+")")
@@ -404,7 +411,21 @@ func (g *Gen) val(v ssa.Value) string {
 	case *ssa.Builtin:
 		t = "0"
 	case *ssa.FieldAddr, *ssa.IndexAddr:
-		// a derived pointer used as a value: opaque, but remember its location
+		// a derived pointer used as a value. The address of a field of a heap object is a function
+		// of the object (and the field), so that `&x.embedded` handed to a promoted method can be
+		// related to x (spec: embedded(x, "field")); anything else is opaque.
+		if fa, ok := v.(*ssa.FieldAddr); ok {
+			st := derefType(fa.X.Type())
+			su := st.Underlying().(*types.Struct)
+			if base := g.locOf(fa.X); base.kind == lStructRoot {
+				t = g.fieldPtr(st, su.Field(fa.Field).Name(), base.ref)
+				break
+			}
+			if inner, ok := fa.X.(*ssa.FieldAddr); ok { // &x.a.b: a field of an embedded struct
+				t = g.fieldPtr(st, su.Field(fa.Field).Name(), g.val(inner))
+				break
+			}
+		}
 		t = g.declare(sym("ptr_"+v.Name()), "Int")
 		g.axiomOnce("ptr."+t, fmtf("(> %s 0)", t))
 	case *ssa.Alloc:
